@@ -1059,7 +1059,7 @@ func (fx *fnCtx) block(stmts []ast.Stmt, k func() (string, error)) (string, erro
 		}
 		if id.Name != fx.recvName || !fx.mutating {
 			// must be a local value (addressable variable), not a pointer parameter
-			if _, isPtr := types.Unalias(fx.scope[id.Name]).(*types.Pointer); isPtr && id.Name != fx.recvName {
+			if _, isPtr := types.Unalias(fx.scope[id.Name]).(*types.Pointer); isPtr && id.Name != fx.recvName && !fx.freshPtr[id.Name] {
 				return "", fmt.Errorf("mutation through pointer parameter %s", id.Name)
 			}
 		}
